@@ -49,7 +49,11 @@ RULE = ("random undirected multigraphs, <= 8 nodes / <= 14 edges (thorough: ever
         "with int / shifted / negative / str / tuple / mixed node labels and shuffled adjacency lists; every 7th case "
         "is a 'tournament' graph (9-18 nodes: weight levels make Kruskal merge singletons -> pairs -> quads -> octets "
         "through roots or arbitrary members, intra-component edges between the levels, a late-joining or isolated node) "
-        "so that union-find trees reach depth 3-4; non-trivial = "
+        "so that union-find trees reach depth 3-4; plus a fixed number of big cases per run: 12 (thorough 48) 'large' "
+        "graphs with 1000-2500 nodes (paths in all 8 orientation x weight-direction x edge-order combinations, then "
+        "random caterpillars / stars / paths, extra edges touching the ends, sometimes disconnected; run under the "
+        "default recursion limit) and 40 (300) 'dense' (near-)complete graphs with 20-32 nodes, many-ties / few-ties "
+        "weights; non-trivial = "
         "the kruskal mirror rejected >= 1 edge (iterations > accepted edges); distinct by (n, edges, scale)")
 
 LABEL_KINDS = ["int", "shift", "neg", "str", "tuple", "mixed"]
@@ -233,6 +237,118 @@ def gen_tournament(rng, big: bool):
             "adj": adj, "family": "tournament"}
 
 
+def _adj_of(rng, n, edges):
+    adj = [[] for _ in range(n)]
+    for u, v, k in edges:
+        adj[u].append([v, k])
+        if u != v or rng.random() < 0.5:
+            adj[v].append([u, k])
+    return adj
+
+
+LARGE_FIXED = [(o, w, r, x) for o in ("hi_lo", "lo_hi") for w in ("inc", "dec") for r in (False, True)
+               for x in ("mid",)]  # 8 adversarial path configurations, all of them in every run
+
+
+def gen_large(rng, idx: int):
+    """1000-2500 nodes: paths / caterpillars / stars in adversarial orientations and orders, so that a union-find
+    without (correct) union by rank or path compression degenerates into a chain as long as the graph; a few extra
+    edges touching the ends and the middle force `find` from the deepest nodes.  The first 8 cases of every run are
+    the fixed path configurations (orientation x weights increasing/decreasing x edge order), the rest is random."""
+    n = rng.randint(1000, 2500)
+    if idx < len(LARGE_FIXED):
+        n = max(n, 1300)
+        shape, numbering = "path", "ident"
+        orient, wstyle, rev, xstyle = LARGE_FIXED[idx]
+        order = "reversed" if rev else "asis"
+        disconnect = False
+    else:
+        shape = rng.choice(["path", "path", "caterpillar", "caterpillar", "star", "double_star"])
+        numbering = rng.choice(["ident", "ident", "reversed", "random"])
+        orient = rng.choice(["hi_lo", "lo_hi", "random"])
+        wstyle = rng.choice(["inc", "dec", "equal", "random", "blocks"])
+        order = rng.choice(["asis", "reversed", "shuffled"])
+        xstyle = rng.choice(["mid", "mid", "heavy", "light", "random", "none"])
+        disconnect = rng.random() < 0.2
+    if shape == "path":
+        pairs = [(i, i + 1) for i in range(n - 1)]
+    elif shape == "caterpillar":
+        spine = rng.randint(n // 3, n - 2)
+        pairs = [(i, i + 1) for i in range(spine - 1)]
+        pairs += [(rng.randrange(spine) if rng.random() < 0.5 else j % spine, j) for j in range(spine, n)]
+    elif shape == "star":
+        pairs = [(0, i) for i in range(1, n)]
+    else:
+        pairs = [(0, 1)] + [(i % 2, i) for i in range(2, n)]
+    perm = list(range(n))
+    if numbering == "reversed":
+        perm.reverse()
+    elif numbering == "random":
+        rng.shuffle(perm)
+    scale = rng.choice([1, 1, 2])
+    m = len(pairs)
+    edges = []
+    for i, (a, b) in enumerate(pairs):
+        a, b = perm[a], perm[b]
+        if orient == "hi_lo":
+            a, b = max(a, b), min(a, b)
+        elif orient == "lo_hi":
+            a, b = min(a, b), max(a, b)
+        elif rng.random() < 0.5:
+            a, b = b, a
+        k = {"inc": i + 1, "dec": m - i, "equal": 7, "random": rng.randint(-60, 60), "blocks": (i // 97) % 5}[wstyle]
+        edges.append([a, b, k])
+    if disconnect and m > 2:
+        del edges[rng.randrange(len(edges))]
+    lo = min(k for _, _, k in edges) - 1
+    hi = max(k for _, _, k in edges) + 1
+    ranked = sorted(k for _, _, k in edges)
+    if xstyle != "none":
+        ends = [perm[0], perm[n - 1], perm[n // 2], perm[1], perm[n - 2]]
+        for j in range(rng.choice([2, 3, 4]) if idx >= len(LARGE_FIXED) else 3):
+            a = ends[j % len(ends)]
+            b = ends[(j + 1) % len(ends)] if j < 3 else rng.randrange(n)
+            # "mid": as heavy as the tree edge at the 90 / 96 / 99 % quantile, i.e. examined when almost all -- but not
+            # all -- nodes are joined (the early `break` after n-1 accepted edges would hide a heavier edge)
+            k = {"heavy": hi + j, "light": lo - j, "random": rng.randint(lo, hi),
+                 "mid": ranked[int(len(ranked) * (0.9, 0.96, 0.99, 0.93)[j % 4])]}[xstyle]
+            edges.append([a, b, k] if rng.random() < 0.5 else [b, a, k])
+    if order == "reversed":
+        edges.reverse()
+    elif order == "shuffled":
+        rng.shuffle(edges)
+    adj = _adj_of(rng, n, edges)
+    if order == "shuffled":
+        for lst in adj:
+            rng.shuffle(lst)
+    return {"n": n, "edges": edges, "scale": scale, "wkind": "float" if scale != 1 else rng.choice(["float", "int"]),
+            "adj": adj, "family": "large", "shape": f"{shape}/{numbering}/{orient}/{wstyle}/{order}/{xstyle}",
+            "starts": [None, perm[n - 1]], "labels": rng.choice(["int", "int", "str"]), "container": "list"}
+
+
+def gen_dense(rng):
+    """complete / near-complete graphs on 20-32 nodes: the heap of `prim` holds hundreds of stale entries"""
+    n = rng.randint(20, 32)
+    keep = rng.choice([1.0, 1.0, 0.9, 0.75])
+    wstyle = rng.choice(["many_ties", "few_ties", "few_ties", "mid", "neg"])
+    scale = rng.choice([1, 1, 1, 4])
+    edges = []
+    for a in range(n):
+        for b in range(a + 1, n):
+            if rng.random() < keep:
+                k = {"many_ties": rng.randint(1, 4), "few_ties": rng.randint(1, 20 * n * n), "mid": rng.randint(1, 40),
+                     "neg": rng.randint(-30, 30)}[wstyle]
+                edges.append([a, b, k] if rng.random() < 0.5 else [b, a, k])
+    rng.shuffle(edges)
+    adj = _adj_of(rng, n, edges)
+    for lst in adj:
+        rng.shuffle(lst)
+    return {"n": n, "edges": edges, "scale": scale, "wkind": "float" if scale != 1 else rng.choice(["float", "int", "mixed"]),
+            "adj": adj, "family": "dense", "shape": f"keep={keep}/{wstyle}",
+            "starts": [None] + sorted(rng.sample(range(n), 2)), "labels": rng.choice(LABEL_KINDS),
+            "container": rng.choice(["list", "tuple"])}
+
+
 def gen_case(rng, big: bool, all_starts: bool, tournament: bool = False):
     g = gen_tournament(rng, big) if tournament else gen_graph(rng, big)
     n = g["n"]
@@ -317,14 +433,17 @@ def _canon(res, scale, node_id):
 
 
 def impl(case):
+    import sys
     from solvor.mst import kruskal, prim
+    sys.setrecursionlimit(1000)  # the interpreter's default (the worker pool raises it for the harness' own sake)
     n, scale = case["n"], case["scale"]
     out = {"kruskal": {}, "prim": {}}
 
     def nid_int(x):
         return x if isinstance(x, int) and not isinstance(x, bool) and 0 <= x < n else -1
 
-    for af in ((False, True, "default") if n > 0 else ()):
+    only = case.get("only_fn")
+    for af in ((False, True, "default") if n > 0 and only in (None, "kruskal") else ()):
         edges = [(u, v, pyweight(case, k, i)) for i, (u, v, k) in enumerate(case["edges"])]
         kw = {} if af == "default" else {"allow_forest": af}
         try:
@@ -335,7 +454,7 @@ def impl(case):
     back = {lab: i for i, lab in enumerate(labs)}
     box = tuple if case.get("container") == "tuple" else list
     cnt = 0
-    for st in case["starts"]:
+    for st in (case["starts"] if only in (None, "prim") else ()):
         graph = {}
         for i, lst in enumerate(case["adj"]):
             row = []
@@ -366,6 +485,8 @@ def _hashable(x):
 def calls_of(case):
     cs = [("kruskal", "False"), ("kruskal", "True"), ("kruskal", "default")] if case["n"] > 0 else []
     cs += [("prim", str(st)) for st in case["starts"]]
+    if case.get("only_fn"):  # set by the shrinker: run only the function whose clause failed
+        cs = [c for c in cs if c[0] == case["only_fn"]]
     return cs
 
 
@@ -383,13 +504,14 @@ def wellformed(sol):
 
 def requests_for(case, out):
     reqs = []
+    do_cert = len(case["edges"]) <= 600  # chkMinCert is cubic; off for the 1000-2500-node family (see judge_call)
     for fn, key in calls_of(case):
         o = out[1][fn].get(key) if out[0] == "ok" else None
         sol = wellformed(o[1]["sol"]) if o and o[0] == "ok" else None
         if fn == "kruskal":
-            reqs.append(["kruskal", case["n"], case["edges"], None if key == "default" else key == "True", sol])
+            reqs.append(["kruskal", case["n"], case["edges"], None if key == "default" else key == "True", sol, do_cert])
         else:
-            reqs.append(["prim", case["adj"], 0 if key == "None" else int(key), sol, case["edges"]])
+            reqs.append(["prim", case["adj"], 0 if key == "None" else int(key), sol, case["edges"], do_cert])
     return reqs
 
 
@@ -409,7 +531,10 @@ def judge_call(ctx, case, fn, key, o, reply, rep):
         raise core.Infra(f"parent/rank mirror kruskalUF disagrees with kruskal on {case} (proved equal: cannot happen)")
     ctx.count(f"{fn}:model_status:{m_status}")
     if o[0] != "ok":
-        ctx.fail(fn, "raises:" + o[1].split(":", 1)[0], f"{what} raised on a valid graph: {o[1]}", rep)
+        kind = o[1].split(":", 1)[0]
+        if kind == "RecursionError" and case.get("family") == "large":
+            kind += ":deep_unionfind"  # a long path / caterpillar / star must not exhaust the default recursion limit
+        ctx.fail(fn, "raises:" + kind, f"{what} raised on a valid graph: {o[1][:300]}", rep)
         return None
     r = o[1]
     status, sol, obj = r["status"], r["sol"], r["obj"]
@@ -427,38 +552,38 @@ def judge_call(ctx, case, fn, key, o, reply, rep):
         return None
     if connected:
         if sol is None or status == "INFEASIBLE":
-            ctx.fail(fn, "false_infeasible", f"{what}: connected graph but status {status} / solution {sol}", rep)
+            ctx.fail(fn, "false_infeasible", f"{what}: connected graph but status {status} / solution {str(sol)[:300]}", rep)
             return None
         subset, tree, forest, cert, weight = chk
         if not subset:
             ctx.fail(fn, "edge_not_in_input", f"{what}: a returned edge is not an input edge", rep)
         elif not tree:
             ctx.fail(fn, "not_spanning_tree", f"{what}: returned edges rejected by the verified checker chkSpanningTree "
-                     f"(need n-1={n - 1} input edges connecting all nodes), got {sol}", rep)
-        elif not cert:
+                     f"(need n-1={n - 1} input edges connecting all nodes), got {str(sol)[:300]}", rep)
+        elif cert is False:
             ctx.fail(fn, "not_minimal", f"{what}: spanning tree of weight {weight}/{case['scale']} fails the verified "
                      f"cycle-property certificate; proved minimum is {m_obj}/{case['scale']}", rep)
-        ctx.count("cert_checked_impl")
+        ctx.count("cert_checked_impl" if cert is not None else "tree_checked_impl_cert_skipped")
     else:
         if not forest_ok:
             if status != "INFEASIBLE" or sol is not None:
                 ctx.fail(fn, "disconnected_not_infeasible", f"{what}: disconnected graph ({comps} components) but status "
-                         f"{status}, solution {sol}", rep)
+                         f"{status}, solution {str(sol)[:300]}", rep)
             return None
         if sol is None or status != "FEASIBLE":
             ctx.fail(fn, "forest_not_feasible", f"{what}: disconnected graph with allow_forest must give a forest flagged "
-                     f"FEASIBLE, got {status} / {sol}", rep)
+                     f"FEASIBLE, got {status} / {str(sol)[:300]}", rep)
             return None
         subset, tree, forest, cert, weight = chk
         if not subset:
             ctx.fail(fn, "edge_not_in_input", f"{what}: a returned edge is not an input edge", rep)
         elif not forest:
             ctx.fail(fn, "not_spanning_forest", f"{what}: returned edges rejected by the verified checker chkSpanningForest "
-                     f"(input edges, acyclic, same components as the input), got {sol}", rep)
-        elif not cert:
+                     f"(input edges, acyclic, same components as the input), got {str(sol)[:300]}", rep)
+        elif cert is False:
             ctx.fail(fn, "forest_not_minimal", f"{what}: spanning forest of weight {weight}/{case['scale']} fails the "
                      f"verified cycle-property certificate; proved minimum is {m_obj}/{case['scale']}", rep)
-        ctx.count("cert_checked_impl")
+        ctx.count("cert_checked_impl" if cert is not None else "tree_checked_impl_cert_skipped")
     # objective = sum of the returned weights (exact)
     if obj != weight:
         ctx.fail(fn, "objective_not_sum", f"{what}: objective {obj}/{case['scale']} but the returned edges sum to "
@@ -501,6 +626,8 @@ def judge(ctx, case, out, replies):
         if fn == "prim" and kw is not None and w != kw:
             ctx.fail("prim", "kruskal_prim_disagree", f"kruskal weight {kw} vs prim(start={key}) weight {w} (scaled by "
                      f"{case['scale']})", dict(rep, impl=out[1]))
+    if case.get("only_fn"):  # a shrunk case restricted to one function: verdicts only, no coverage bookkeeping
+        return
     k_reply = replies[0]
     rejected = k_reply[3] - (len(k_reply[1]) if k_reply[1] is not None else 0)
     if k_reply[1] is None:  # INFEASIBLE mirror: take the forest run
@@ -519,8 +646,13 @@ def judge(ctx, case, out, replies):
     if any(k < 0 for _, _, k in es):
         ctx.count("has_negative_weight")
     canon = [case["n"], case["edges"], case["scale"]]
-    ctx.case(canon, rejected >= 1, {"case": {k: case[k] for k in ("n", "edges", "scale", "starts", "labels")},
-                                    "impl": out[1], "model_kruskal": k_reply[:4]})
+    if case["n"] > 40 or len(es) > 60:  # keep the evidence file small
+        sample = {"case": {"n": case["n"], "edges": len(es), "family": case.get("family"), "shape": case.get("shape")},
+                  "model_kruskal": [k_reply[0], k_reply[2], k_reply[3]]}
+    else:
+        sample = {"case": {k: case[k] for k in ("n", "edges", "scale", "starts", "labels")},
+                  "impl": out[1], "model_kruskal": k_reply[:4]}
+    ctx.case(canon, rejected >= 1, sample)
 
 
 class _Collector:
@@ -556,7 +688,8 @@ def evaluate(cases, ctx=None, procs=None):
         rs = requests_for(c, o)
         spans.append((len(reqs), len(reqs) + len(rs)))
         reqs += rs
-    replies = Driver("Mst").run(reqs, chunks=8 if len(reqs) > 400 else 1)
+    heavy = sum(1 for c in cases if c["n"] > 200)
+    replies = Driver("Mst").run(reqs, chunks=8 if len(reqs) > 400 else min(8, max(1, heavy * 3)))
     for rp in replies:
         if rp and rp[0] == "error":
             raise core.Infra(f"model rejected request: {rp}")
@@ -591,28 +724,63 @@ def drop_edge(case, idx):
     return c
 
 
-def drop_node(case, x):
-    if case["n"] <= 1:
+def drop_edges(case, idxs):
+    c = case
+    for i in sorted(idxs, reverse=True):
+        c = drop_edge(c, i)
+    return c
+
+
+def drop_nodes(case, xs):
+    xs = set(xs)
+    if not xs or case["n"] - len(xs) < 1:
         return None
-    ren = lambda a: a - 1 if a > x else a  # noqa: E731
-    edges = [[ren(u), ren(v), k] for u, v, k in case["edges"] if u != x and v != x]
-    adj = [[[ren(v), k] for v, k in lst if v != x] for i, lst in enumerate(case["adj"]) if i != x]
+    new_id, j = {}, 0
+    for a in range(case["n"]):
+        if a not in xs:
+            new_id[a] = j
+            j += 1
+    edges = [[new_id[u], new_id[v], k] for u, v, k in case["edges"] if u not in xs and v not in xs]
+    adj = [[[new_id[v], k] for v, k in lst if v not in xs] for i, lst in enumerate(case["adj"]) if i not in xs]
     starts = []
     for st in case["starts"]:
-        if st is None:
-            starts.append(None)
-        elif st != x and ren(st) not in starts:
-            starts.append(ren(st))
-    return {**case, "n": case["n"] - 1, "edges": edges, "adj": adj, "starts": starts or [None]}
+        t = None if st is None else new_id.get(st, "gone")
+        if t != "gone" and t not in starts:
+            starts.append(t)
+    return {**case, "n": j, "edges": edges, "adj": adj, "starts": starts or [None]}
 
 
-def candidates(case):
-    for x in range(case["n"] - 1, -1, -1):
-        c = drop_node(case, x)
+def drop_node(case, x):
+    return drop_nodes(case, [x])
+
+
+def _blocks(total, single_limit=40, per_size=6):
+    """index blocks to try dropping: every single index for small totals, otherwise halves, quarters, ... (a few
+    blocks per size, from both ends), down to singles at the ends"""
+    if total <= single_limit:
+        return [[i] for i in range(total - 1, -1, -1)]
+    out, size = [], total // 2
+    while size >= 1:
+        starts = list(range(0, total - size + 1, size))
+        pick = starts[:per_size // 2] + starts[-(per_size // 2):]
+        for st in dict.fromkeys(pick):
+            out.append(list(range(st, st + size)))
+        size //= 2
+    return out
+
+
+def candidates(case, key=None):
+    big = case["n"] > 200
+    if key is not None and not case.get("only_fn") and key[1] != "kruskal_prim_disagree":
+        yield f"only {key[0]}", {**case, "only_fn": key[0]}
+        if big:
+            return  # evaluate that one alone first: it makes every later candidate much cheaper
+    for blk in _blocks(case["n"], per_size=2 if big else 6):
+        c = drop_nodes(case, blk)
         if c is not None:
-            yield f"drop node {x}", c
-    for i in range(len(case["edges"]) - 1, -1, -1):
-        yield f"drop edge {case['edges'][i]}", drop_edge(case, i)
+            yield f"drop nodes {blk[0]}..{blk[-1]}", c
+    for blk in _blocks(len(case["edges"]), per_size=2 if big else 6):
+        yield f"drop edges #{blk[0]}..#{blk[-1]}", drop_edges(case, blk)
     if len(case["starts"]) > 1:
         for st in case["starts"]:
             yield f"only start {st}", {**case, "starts": [st]}
@@ -621,32 +789,35 @@ def candidates(case):
 
 
 def shrink(case, key, deadline):
-    """Greedy structural shrinking: all single-step reductions of the current case are evaluated in one batch, the
-    first one on which the same (function, class) still fails is kept.  A candidate on which the harness itself
-    objects (generator invariants) is skipped."""
+    """Greedy structural shrinking: the single-step reductions of the current case are evaluated in batches (small
+    batches for big cases, with the deadline checked in between), the first one on which the same (function, class)
+    still fails is kept.  A candidate on which the harness itself objects (generator invariants) is skipped."""
     import time
     history = []
-    while time.time() < deadline:
-        cands = list(candidates(case))
-        if not cands:
-            break
-        try:
-            res = evaluate([c for _, c in cands], procs=2)
-        except core.Infra:
-            res = []
-            for _, c in cands:
-                try:
-                    res.append(evaluate([c], procs=1)[0])
-                except core.Infra:
-                    res.append([])
-        for (how, c), fails in zip(cands, res):
-            hit = [f for f in fails if (f[0], f[1]) == key]
-            if hit:
-                case, last = c, hit[0]
-                history.append(how)
+    progress = True
+    while progress and time.time() < deadline:
+        progress = False
+        cands = list(candidates(case, key))
+        bsz = 4 if case["n"] > 200 else len(cands) or 1
+        for b in range(0, len(cands), bsz):
+            if time.time() >= deadline:
                 break
-        else:
-            break
+            batch = cands[b:b + bsz]
+            try:
+                res = evaluate([c for _, c in batch], procs=min(4, len(batch)))
+            except core.Infra:
+                res = []
+                for _, c in batch:
+                    try:
+                        res.append(evaluate([c], procs=1)[0])
+                    except core.Infra:
+                        res.append([])
+            hit = next(((how, c) for (how, c), fails in zip(batch, res) if any((f[0], f[1]) == key for f in fails)), None)
+            if hit:
+                history.append(hit[0])
+                case = hit[1]
+                progress = True
+                break
     return case, history
 
 
@@ -663,7 +834,7 @@ def run_cases(ctx, cases, do_shrink=True):
             # shrink on the first failing clause, then report every clause that fails on the small case
             shrunk += 1
             key = (unknown[0][0], unknown[0][1])
-            small, history = shrink(case, key, time.time() + 12.0)
+            small, history = shrink(case, key, time.time() + 8.0)
             if history:
                 for fn, klass, what, rep in evaluate([small], procs=1)[0]:
                     if (fn, klass) not in seen:
@@ -685,6 +856,13 @@ def run(ctx, budget):
     # every 7th case (about 15 %) is of the structured deep-union-find family
     cases += [gen_case(ctx.rng, big=(thorough and i % 3 == 0), all_starts=(thorough or i % 4 == 0),
                        tournament=(i % 7 == 3)) for i in range(n)]
+    # a small fixed number of big cases, spread over the list so that the driver chunks share them:
+    # 1000-2500-node paths / caterpillars / stars (deep union-find) and 20-32-node (near-)complete graphs (stale heap)
+    n_large, n_dense = (12, 40) if not thorough else (48, 300)
+    extra = [gen_large(ctx.rng, i) for i in range(n_large)] + [gen_dense(ctx.rng) for _ in range(n_dense)]
+    step = max(1, len(cases) // (len(extra) + 1))
+    for j, c in enumerate(extra):
+        cases.insert(min(len(cases), (j + 1) * step + j), c)
     run_cases(ctx, cases)
     h = ctx.cov["histogram"]
     ctx.cov["cert_checked_impl"] = h.get("cert_checked_impl", 0)
